@@ -104,7 +104,44 @@ def diff_dumps(b, a):
     return out
 
 
+def interrupted_open(ck):
+    """the first open of an empty directory (the initial migration) stopped at every file-operation boundary: the file it leaves must
+    open again (the recorder and the reopening are those of C23)"""
+    import os, shutil, sys, tempfile
+    import c23
+    sys.path.insert(0, os.path.join(vf.VERIF, "lib"))
+    import fsrec
+    b = ck.build("sqlcrash")
+    rec, out, faithful = c23.record(ck, b, [])
+    if not faithful:
+        ck.notes.append("strace recorder: final image of the first open differs from the directory the run left: interrupted opens not judged")
+        return
+    imgs = rec.images
+    if not ck.thorough and len(imgs) > 150:
+        imgs = imgs[:: 1 + len(imgs) // 150] + [imgs[-1]]
+    root = tempfile.mkdtemp(prefix="sqlopenimg-", dir=ck.scratch)
+    dirs = []
+    for i, im in enumerate(imgs):
+        d = os.path.join(root, "i%d" % i)
+        os.makedirs(d)
+        fsrec.materialize({k: v for k, v in im["files"].items() if not k.endswith("-shm")}, d)
+        dirs.append(d)
+    res = c23.reopen(ck, b, dirs)
+    shutil.rmtree(root, ignore_errors=True)
+    for im, o in zip(imgs, res):
+        ck.count(("interrupted-open", im["after"], json.dumps(sorted((k, len(v)) for k, v in im["files"].items()))), True)
+        if "err" in o:
+            ck.violation("C24:interrupted-first-open:refused", "the first open of an empty directory was stopped right after '%s'; opening the file it left fails: %s"
+                         % (im["after"], o["err"]), {"interrupted": True})
+            break
+    ck.extra["interrupted_open_images"] = len(imgs)
+
+
 def run(ck):
+    if ck.replay is None or ck.replay.get("interrupted"):
+        interrupted_open(ck)
+        if ck.replay is not None:
+            return
     b = ck.build("sqlopen")
     r = ck.tlc("SqliteOpen", "MC_SqliteOpen_cases.cfg")
     table = r.printed
